@@ -23,10 +23,10 @@ CodeViol(r) ==
         \* relays are ordered by (leg) distance
         \cup (IF ~r.key.ok \/ ~AsciiOnly(r.s) \/ "PAT_RELAYS" \notin F \/ r.key.cat # 5 THEN {} ELSE
                 LET p == RelayParts(r.s) IN
-                IF p.leg < 0 \/ r.key.num = p.leg THEN {} ELSE {"sort_distance_differs_from_code"})
+                IF p.leg < 0 \/ r.key.num \in (p.leg - p.tol)..p.leg THEN {} ELSE {"sort_distance_differs_from_code"})
         \cup (IF ~r.dist.ok \/ ~AsciiOnly(r.s) \/ "PAT_RELAYS" \notin F THEN {} ELSE
                 LET p == RelayParts(r.s) IN
-                IF p.leg < 0 \/ p.legs * p.leg > 1000000 \/ r.dist.v = p.legs * p.leg THEN {} ELSE {"relay_distance_not_legs_times_leg"})
+                IF p.leg < 0 \/ r.dist.v \in (p.legs * (p.leg - p.tol))..(p.legs * p.leg) THEN {} ELSE {"relay_distance_not_legs_times_leg"})
         \cup (IF ~r.unit.ok \/ ~r.kind.ok THEN {} ELSE
                 IF (r.kind.v \in {"throw", "jump"}) = (r.unit.v = "metres") THEN {} ELSE {"unit_and_kind_disagree"})
 PairViol(r) ==     \* adjacent entries of the tuple-sorted list, distances below 100 km
